@@ -62,20 +62,35 @@ def pc_status(pc, extra=()):
     return "unsat", None
 
 
-def compare_bits(got, exp):
-    """-> (verdict, detail) comparing two bit-value lists"""
+def compare_bits(got, exp, pc=()):
+    """-> (verdict, detail) comparing two bit-value lists (under the path condition pc)"""
     if len(got) != len(exp):
         return REFUTED, "result has %d bits, expected %d" % (len(got), len(exp))
     tops = 0
+    unknown = None
     for p, (g, e) in enumerate(zip(got, exp)):
         if g is None:
             tops += 1
             continue
         if g != e:
-            w = witness(g, e)
+            if pc:
+                x = B.bxor(g, e)
+                if x is None:
+                    unknown = "bit %d differs syntactically, support too large to decide under the path condition" % p
+                    continue
+                s, w = pc_status(pc, extra=(W(1, bits=[x]),))
+                if s == "unsat":
+                    continue
+                if s == "unknown":
+                    unknown = "bit %d: %s" % (p, w)
+                    continue
+            else:
+                w = witness(g, e)
             return REFUTED, "bit %d is %s, specification says %s; differs under %s" % (p, B.describe(g), B.describe(e), w)
     if tops:
         return UNDECIDED, "%d result bits are top" % tops
+    if unknown:
+        return UNDECIDED, unknown
     return PROVED, ""
 
 
@@ -160,7 +175,7 @@ def table_bits(env, kind, it, st, v, n):
     return bits_of_table(K.words(it, st, v), n)
 
 
-def check_table_value(env, kind, it, st, v, n, exp):
+def check_table_value(env, kind, it, st, v, n, exp, pc=()):
     """value is a table of the right type, size and number of variables, with the expected bits"""
     K = env.kinds[kind]
     try:
@@ -175,4 +190,4 @@ def check_table_value(env, kind, it, st, v, n, exp):
             return UNDECIDED, "symbolic num_vars"
         if nv.val != n:
             return REFUTED, "result has num_vars=%d, expected %d" % (nv.val, n)
-    return compare_bits(bits_of_table(words, n), exp)
+    return compare_bits(bits_of_table(words, n), exp, pc)
